@@ -272,12 +272,16 @@ std::vector<at::Tensor> amen_solve(
 
 
             double norm = torch::norm(Phis[k]).item<double>();
-            norm = norm>0 ? norm : 0.0;
+            norm = norm>0 ? norm : 1.0;
             normA[k-1] = norm;
             Phis[k] = Phis[k] / norm;
 
             norm = torch::norm(Phis_b[k]).item<double>();
-            norm = norm>0 ? norm : 0.0;
+            // a projection of the rhs at roundoff level is zero: normalising it would blow the noise up
+            if(!(norm > 8 * 2.220446049250313e-16 * torch::norm(Phis_b[k+1]).item<double>() * torch::norm(b_cores[k]).item<double>() * torch::norm(x_cores[k]).item<double>())){
+                Phis_b[k] = Phis_b[k] * 0;
+                norm = 1.0;
+            }
             normb[k-1] = norm;
             Phis_b[k] = Phis_b[k] / norm;
             
@@ -346,14 +350,21 @@ std::vector<at::Tensor> amen_solve(
                 int nit;
 
                 at::Tensor ps = 0.0 * previous_solution;
-                gmres<double>(solution_now, flag, nit, Op, drhs, ps, drhs.sizes()[0], local_iterations, eps_local, resets );
-
-                if(preconditioner!=NO_PREC){
-                    solution_now = Op.apply_prec(solution_now.reshape(shape_now));
+                if(!(norm_rhs > 0)){
+                    // zero local right-hand side: the local solution is zero (a Krylov solve with tolerance 0 would break down)
+                    flag = 0; nit = 0;
+                    solution_now = ps.reshape({-1,1});
                 }
-                solution_now = solution_now.reshape({-1,1});
+                else{
+                    gmres<double>(solution_now, flag, nit, Op, drhs, ps, drhs.sizes()[0], local_iterations, eps_local, resets );
 
-                solution_now += previous_solution;
+                    if(preconditioner!=NO_PREC){
+                        solution_now = Op.apply_prec(solution_now.reshape(shape_now));
+                    }
+                    solution_now = solution_now.reshape({-1,1});
+
+                    solution_now += previous_solution;
+                }
                 res_old = torch::norm(Op.matvec(previous_solution, false)-rhs).item<double>()/norm_rhs;
                 res_new = torch::norm(Op.matvec(solution_now, false)-rhs).item<double>()/norm_rhs;
 
@@ -488,7 +499,10 @@ std::vector<at::Tensor> amen_solve(
                 normA[k] = norm;
                 Phis[k+1] = Phis[k+1] / norm;
                 norm = torch::norm(Phis_b[k+1]).item<double>();
-                norm = norm>0 ? norm : 1.0;
+                if(!(norm > 8 * 2.220446049250313e-16 * torch::norm(Phis_b[k]).item<double>() * torch::norm(b_cores[k]).item<double>() * torch::norm(x_cores[k]).item<double>())){
+                    Phis_b[k+1] = Phis_b[k+1] * 0;
+                    norm = 1.0;
+                }
                 normb[k] = norm;
                 Phis_b[k+1] = Phis_b[k+1] / norm;
                 
